@@ -546,7 +546,26 @@ func main() {
 						cosimOK++
 					} else {
 						cosimBad++
-						incon = append(incon, fmt.Sprintf("CO-SIMULATION MISMATCH %s{%s}: engine path completes with all checks passing, native run says %q (inputs %v)", c.harness, paramStr(c.v.Params), res.result, c.v.Inputs))
+						if strings.HasPrefix(res.result, "check-failed ") {
+							// the real code fails a harness assertion on this concrete input: that is a violation in its own
+							// right, whatever the symbolic run concluded about the path (typically a check that was violated
+							// earlier on the path under an abstraction and then assumed)
+							k := c.harness + "/check/" + strings.TrimPrefix(strings.Fields(res.result)[1], "")
+							ck := k
+							if matchKnown(known, k, c.v.Params) != nil {
+								ck = k + "\x00known"
+							}
+							if confirmed[ck] == nil {
+								cc := c
+								cc.okCase = false
+								cc.v.Key, cc.v.Kind = k, "check"
+								cc.v.Msg = "native run of a witness path fails this assertion | native: " + res.result
+								confirmed[ck] = &cc
+								delete(unconfirmed, k)
+							}
+						} else {
+							incon = append(incon, fmt.Sprintf("CO-SIMULATION MISMATCH %s{%s}: engine path completes with all checks passing, native run says %q (inputs %v)", c.harness, paramStr(c.v.Params), res.result, c.v.Inputs))
+						}
 					}
 					continue
 				}
